@@ -113,3 +113,19 @@ def any_position_not_copied(job, failure) -> bool:
         return _rerun(job, failure)
     finally:
         M.AnyMethod.deserialize = orig
+
+
+def coerce_unique_on_raw_data(job, failure) -> bool:
+    """C14: container constraints are evaluated on the data *before* element coercion;
+    identified by: coercion accepts, the strict run on the normalised datum reports only
+    uniqueItems"""
+    if failure.get("kind") != "coerce-accepts-beyond-table":
+        return False
+    from apischema import settings
+
+    ref = failure.get("extra", {}).get("strict_on_normalised")
+    if isinstance(ref, dict):
+        ref = ref.get("__tuple__")
+    if not ref or ref[0] != "err":
+        return False
+    return all(e.get("err") == settings.errors.unique_items for e in ref[1])
